@@ -140,8 +140,13 @@ def build_driver(name, variant='base', extra=None, with_capi=False):
     with Lock('drv-' + name + variant):
         if os.path.exists(exe):
             return exe, None
+        # older builds of this driver are removed, but not while another check started less than two hours ago may still run them
         for old in glob.glob(os.path.join(libd, name + '-*')):
-            os.remove(old)
+            try:
+                if time.time() - os.path.getmtime(old) > 7200:
+                    os.remove(old)
+            except OSError:
+                pass
         objs = [os.path.join(libd, 'libmustache.a')]
         if with_capi:
             objs = [os.path.join(libd, 'mustache_c_api.o')] + objs
